@@ -353,7 +353,8 @@ class PlanJoinTablesQuery:
         return self.step_stack.pop()
 
     def process_subselect(self, item):
-        # is sub select
+        # is sub select: its steps go to the plan, an open partition is complete
+        self.close_partition()
         item.sub_select.alias = None
         item.sub_select.parentheses = False
         step = self.planner.plan_select(item.sub_select)
@@ -598,6 +599,9 @@ class PlanJoinTablesQuery:
 
                 self.add_step_to_partition(step)
                 return step
+
+            # this step can't be partitioned: the partition is complete
+            self.close_partition()
 
         elif partition_size is not None:
             # create partition
